@@ -140,7 +140,7 @@ static void gen(plan_t *p, rng_t *r)
     int nclients, hard, srv_nbio, nsched;
     static const int rxcaps[] = { 512, 1024, 4096, 4096, 8192, 65536, 262144 };
     if ((int)(p->seed % 1000000) < sweep_total()) { gen_sweep(p, (int)(p->seed % 1000000)); return; }
-    nclients = rng_range(r, 1, 3);
+    nclients = rng_chance(r, 1, 6) ? rng_range(r, 4, 5) : rng_range(r, 1, 3);      /* up to six parties */
     hard = rng_chance(r, 1, 5);
     srv_nbio = rng_chance(r, 1, 3);
     plan_knob(p, "ntasks", 1 + nclients);
